@@ -122,7 +122,7 @@ def _parse_verdicts(out):
 
 
 def validate_batch(spec_dir, module, traces, cfg=None, chunk=None, procs=12, timeout=1800, heap="3g",
-                   env=None):
+                   env=None, max_bytes=4_000_000):
     """Validate a list of trace dicts against <module>.tla.  Returns (verdicts_by_index, stats).
 
     The batch is split into chunks, each checked by its own single-worker TLC process (verdict lines of a
@@ -133,7 +133,15 @@ def validate_batch(spec_dir, module, traces, cfg=None, chunk=None, procs=12, tim
     n = len(traces)
     if chunk is None:
         chunk = max(20, min(400, (n + procs - 1) // procs))
-    chunks = [(i, traces[i:i + chunk]) for i in range(0, n, chunk)]
+    # chunks are bounded by count and by size: a few very large traces (long enumerations) get a TLC process of their own
+    sizes = [len(json.dumps({a: b for a, b in t.items() if a != "input"}, default=str)) for t in traces]
+    chunks, start, acc = [], 0, 0
+    for i in range(n):
+        if i > start and (i - start >= chunk or acc + sizes[i] > max_bytes):
+            chunks.append((start, traces[start:i]))
+            start, acc = i, 0
+        acc += sizes[i]
+    chunks.append((start, traces[start:n]))
     wd = scratch("tv-")
     t0 = time.time()
 
